@@ -2,7 +2,7 @@
    a directory entry d/ listing a and sub/b, a file entry f sharing a's content, the root mapped
    to (cache 10, remote 20) and the prefix d/sub INSIDE the directory re-routed to remote 21. *)
 From Coq Require Import NArith List Bool Lia.
-From DvcData Require Import Base.Val Model.Transfer Gen.StorageMap Model.PushFetch Proofs.TransferBase Proofs.TransferStatus Proofs.TransferLoop Proofs.TransferProofs Proofs.PushFetchResolve Proofs.PushFetchProofs.
+From DvcData Require Import Base.Val Model.Transfer Gen.StorageMap Model.PushFetch Proofs.TransferBase Proofs.TransferStatus Proofs.TransferLoop Proofs.TransferProofs Proofs.PushFetchResolve Proofs.PushFetchProofs Proofs.PushFetchMap Proofs.PushFetchIndexed.
 Import ListNotations.
 Open Scope N_scope.
 
@@ -303,4 +303,103 @@ Example x_run_seq :
   forallb (has (sget (p_w out) 30)) [xd1; xf1; xf2] = true /\
   checkout_view x_fmap1 x_idx (p_w out) =
     [([[100]; [97]], Some [11]); ([[100]; [115]; [98]], Some [12]); ([[102]], Some [11])].
+Proof. vm_compute. repeat split; reflexivity. Qed.
+
+(* ====================================================================================== *)
+(* non-vacuity of the map-level theorems (push_map, fetch_map, checkout_map): the system x
+   satisfies the hypotheses stated on index, map and initial stores *)
+Lemma x_w_lookup s D b : lookup D (sget x_w s) = Some b ->
+  (D = xf1 /\ b = [11]) \/ (D = xf2 /\ b = [12]) \/ (D = xd1 /\ b = [1]).
+Proof.
+  unfold x_w. cbn [sget]. destruct (N.eqb 10 s); [|discriminate]. apply x_cache_lookup.
+Qed.
+
+Example x_map_hyps fails :
+  idx_ok (x_env fails) x_w x_idx /\ single_cache x_map /\ no_split x_map x_idx /\
+  placed x_w x_map x_idx /\ caches_apart x_map x_idx /\
+  (forall s1 s2 D b1 b2, lookup D (sget x_w s1) = Some b1 -> lookup D (sget x_w s2) = Some b2 ->
+                         x_parse b1 = x_parse b2) /\
+  (forall s D b, is_dir_oid D = true -> lookup D (sget x_w s) = Some b -> x_parse b <> None) /\
+  (forall g, In g (collect x_map x_idx) -> closed x_parse (sget x_w (g_data g))).
+Proof.
+  split.
+  { intros i [<-|[<-|[]]]; simpl.
+    - split; [reflexivity|]. split.
+      + intros f [<-|[<-|[]]]; reflexivity.
+      + intros s b L. destruct (x_w_lookup _ _ _ L) as [[E _]|[[E _]|[_ ->]]]; try discriminate. reflexivity.
+    - reflexivity. }
+  split.
+  { intros p s p' s' si si' H1 H2 G1 G2 _ _.
+    destruct H1 as [E|[E|[]]]; inversion E; subst p s; vm_compute in G1; inversion G1; subst si;
+      destruct H2 as [E'|[E'|[]]]; inversion E'; subst p' s'; vm_compute in G2; inversion G2; subst si';
+      reflexivity. }
+  split.
+  { intros p s si k o H1 G1 _ Hin Hm. vm_compute in Hin.
+    destruct H1 as [E|[E|[]]]; inversion E; subst p s; vm_compute in G1; inversion G1; subst si;
+      destruct Hin as [E'|[E'|[E'|[E'|[]]]]]; inversion E'; subst k o; reflexivity. }
+  split.
+  { intros k o c Hin Hc. vm_compute in Hin.
+    destruct Hin as [E|[E|[E|[E|[]]]]]; inversion E; subst k o; vm_compute in Hc; inversion Hc; subst c;
+      reflexivity. }
+  split.
+  { unfold caches_apart. rewrite x_collect. intros g [<-|[<-|[]]]; exists 10; (split; [reflexivity|]);
+      intros g' [<-|[<-|[]]]; discriminate. }
+  split.
+  { intros s1 s2 D b1 b2 L1 L2.
+    destruct (x_w_lookup _ _ _ L1) as [[-> ->]|[[-> ->]|[-> ->]]];
+      destruct (x_w_lookup _ _ _ L2) as [[E ->]|[[E ->]|[E ->]]]; try reflexivity; discriminate. }
+  split.
+  { intros s D b Hd L. destruct (x_w_lookup _ _ _ L) as [[-> ->]|[[-> ->]|[-> ->]]];
+      try (vm_compute in Hd; discriminate). }
+  rewrite x_collect. intros g [<-|[<-|[]]] D l f H; unfold listing in H; simpl in H;
+    destruct (is_dir_oid D); discriminate.
+Qed.
+
+(* ====================================================================================== *)
+(* non-vacuity of push_indexed: remote 20 has a tmp_dir (real index, empty at first), 21 has none *)
+Definition x_ix : ixmap := [(20, [])].
+
+Lemma x_wf_ix fails g : In g (collect x_map x_idx) -> wf (gix (x_env fails) x_w x_ix g).
+Proof.
+  intros Hg. rewrite x_collect in Hg. destruct Hg as [<-|[<-|[]]].
+  - (* the indexed remote *)
+    constructor.
+    + intros l o; simpl; tauto.
+    + intros l o; simpl; tauto.
+    + intros b l f. apply x_flat.
+    + split; intros D b1 b2 H; discriminate.
+    + intros D l f H. unfold listing in H. simpl in H. destruct (is_dir_oid D); discriminate.
+    + right. intros o H. discriminate.
+    + right. intros D l f HD Hd HT Hf. simpl in HD.
+      assert (D = xd1) as ->.
+      { destruct HD as [<-|[<-|[<-|[<-|[]]]]]; auto; vm_compute in Hd; discriminate. }
+      vm_compute in HT. inversion HT; subst l. simpl. destruct Hf as [<-|[<-|[]]]; auto.
+    + intros o Ho. reflexivity.
+  - (* the remote without index: the index-free input *)
+    change (gix (x_env fails) x_w x_ix {| g_data := 21; g_cache := Some 10; g_req := [xf2] |})
+      with (gin (x_env fails) RPush x_w {| g_data := 21; g_cache := Some 10; g_req := [xf2] |}).
+    apply (x_wf fails RPush x_map x_w); auto.
+    + rewrite x_collect. right. left. reflexivity.
+    + intros D b L Hd. apply x_cache_dirs; auto.
+Qed.
+
+Example x_push_indexed_hyps fails :
+  (forall g, In g (collect x_map x_idx) -> wf (gix (x_env fails) x_w x_ix g)) /\
+  (forall g ix, In g (collect x_map x_idx) -> iget x_ix (g_data g) = Some ix -> sound_for (sget x_w (g_data g)) ix).
+Proof.
+  split; [apply x_wf_ix|].
+  intros g ix Hg Hi. rewrite x_collect in Hg. destruct Hg as [<-|[<-|[]]]; vm_compute in Hi; inversion Hi.
+  apply sound_for_nil.
+Qed.
+
+(* push with a fault, clean retry: the real index of remote 20 records the directory and its files
+   only once everything is there; remote 21 never gets an index *)
+Example x_run_ix :
+  let r1 := run_round_ix (x_env fail_f2_into_20) RPush x_map x_idx x_w x_ix in
+  let r2 := run_round_ix (x_env nofail) RPush x_map x_idx (p_w (fst r1)) (snd r1) in
+  (p_err (fst r1), p_moved (fst r1), p_failed (fst r1)) = (None, 2, 2) /\
+  iget (snd r1) 20 = Some [] /\
+  (p_err (fst r2), p_moved (fst r2), p_failed (fst r2)) = (None, 2, 0) /\
+  option_map ix_keys (iget (snd r2) 20) = Some [xf1; xf2; xd1] /\ iget (snd r2) 21 = None /\
+  forallb (has (sget (p_w (fst r2)) 20)) [xd1; xf1; xf2] = true.
 Proof. vm_compute. repeat split; reflexivity. Qed.
